@@ -19,6 +19,7 @@ SPEC = {
         "modelled, not verified: SHA-512/256 itself (abstract H in the theorems); node cache LRU, node databases and serialization are dimensions of the correspondence runs only",
     ],
     "assumptions": [
+        "case classes: ordinary (1-60 ops, all capacities), 'long' (~4%: 150-400 keys, 20-120 read-modify-write rounds of Get/Seek then Insert/Remove of the same key + Commit, node capacity 32/64 well above the measured path depth 11-14, value capacity unlimited, DB backends; failures are always plain violations, never attributed to the cache findings; only the final commit is evaluated by the model and only when the final tree has <= 150 keys, the independent oracle checks every commit and every read) and 'bigbatch' (~6%: 16-48 inserts, failed CommitKnown, 16-48 more inserts, commit, reopen, read back on the reopened tree)",
         "CommitKnown is part of the alphabet: with the right root (learnt by a NoPersist commit) it must behave exactly like Commit, with a wrong root it must fail with ErrKnownRootMismatch and leave contents and all later roots intact (checked against the reference map, after reopen, and against a twin without the failed attempts); mkvs.WithoutWriteLog() is a configuration dimension (50%) of both C02 and C03",
         "quantifier extended to FAULTS (labelled extension): the harness injects one fault (the k-th NodeDB.GetNode of an operation fails once, or the operation's context is cancelled at that point) into twins of ~35% of the eligible histories, observes the operation's error, retries the same operation and requires the fault-free twin's root and contents; on the functional model a failed operation is the identity by construction (failed_op_leaves_tree). Any divergence after an injected fault is a violation (the doRemove defect found this way is fixed in /repo 8b362ab). Fault twins run with AMPLE cache capacities only (5000 nodes / 16 MB): the combination fault + eviction (e.g. a pre-fetched sibling evicted during the descent and then failing to re-fetch) is not exercised",
         "known findings (known_findings.json): a failing case is attributed to a cache finding only on EVIDENCE: the identical history is re-run with ample capacities (node 5000 / value 16 MB, same backend); if it fails again it is a plain violation (and its model mismatch is not exempted); only if the ample-capacity rerun is clean it is attributed to C02:node-capacity-not-above-path-depth (iff 0 < node_cap <= deepest path of the reference trie + 1) or else to C02:embedded-leaf-evicted-under-dirty-internal-node (iff small value capacity and an embedded leaf existed: VerifScan anomaly or proper-prefix key pair); every other failure is a violation",
